@@ -37,6 +37,8 @@ def dec_attr(x):
             return np.array(x["__nd"], dtype=x.get("dtype", "float64"))
         if "__ik" in x:
             return {k: dec_attr(v) for k, v in x["__ik"]}
+        if "__tk" in x:
+            return {tuple(k): dec_attr(v) for k, v in x["__tk"]}     # keys that are tuples of integers (atom index tuples)
         return {k: dec_attr(v) for k, v in x.items()}
     if isinstance(x, list):
         return [dec_attr(v) for v in x]
@@ -96,6 +98,7 @@ def attr_values(int_keys=True, arrays=True):
         opts = [st.lists(children, max_size=3), st.dictionaries(_attr_keys, children, max_size=3)]
         if int_keys:
             opts.append(st.lists(st.tuples(st.integers(-3, 300), children).map(list), max_size=2, unique_by=lambda kv: kv[0]).map(lambda kv: {"__ik": kv}))
+            opts.append(st.lists(st.tuples(st.lists(st.integers(0, 40), min_size=1, max_size=4), children).map(list), max_size=2, unique_by=lambda kv: tuple(kv[0])).map(lambda kv: {"__tk": kv}))
         return st.one_of(*opts)
 
     return st.recursive(st.one_of(_attr_scalars, *extra), ext, max_leaves=6)
@@ -242,8 +245,15 @@ def build_atoms(r):
 def _connect(obj, r):
     from molli.chem import BondType, BondStereo
 
-    for b in r["bonds"]:
-        obj.connect(b["a"], b["b"], label=b["label"], btype=BondType(b["btype"]), stereo=BondStereo(b["stereo"]), f_order=b["f_order"], attrib=dec_attr(b["attrib"]))
+    for k, b in enumerate(r["bonds"]):
+        if k % 2 == 0:
+            obj.connect(b["a"], b["b"], label=b["label"], btype=BondType(b["btype"]), stereo=BondStereo(b["stereo"]), f_order=b["f_order"], attrib=dec_attr(b["attrib"]))
+        else:
+            # every other bond reaches its state by ASSIGNMENT after a plain connect() (what editing code does): same final state
+            obj.connect(b["a"], b["b"])
+            nb = obj.bonds[-1]
+            nb.label, nb.btype, nb.stereo, nb.f_order = b["label"], BondType(b["btype"]), BondStereo(b["stereo"]), b["f_order"]
+            nb.attrib = dec_attr(b["attrib"])
 
 
 def build_molecule(r, cls=None):
